@@ -164,4 +164,19 @@ def sumAxis0M [Add α] (ms : List (List (List α))) : List (List α) :=
   | [] => []
   | m :: rest => rest.foldl (fun acc x => List.zipWith (fun r s => List.zipWith (· + ·) r s) acc x) m
 
+/-! ### vocabulary of the translated Monte-Carlo walk (`GenM`) -/
+
+/-- `enumerate(l, start=k)` -/
+def enumerateFrom (start : Int) : List β → List (Int × β)
+  | [] => []
+  | x :: xs => (start, x) :: enumerateFrom (start + 1) xs
+
+/-- a `for` loop whose body may `break`: left fold over the items; the body returns the new state and whether `break` was taken; once it
+was, the remaining items are skipped (`continue` is simply an early `pure (state, false)` of the body) -/
+def forBreakM {σ ε : Type} (l : List β) (init : σ) (body : σ → β → Except ε (σ × Bool)) : Except ε σ :=
+  (l.foldlM (fun (sb : σ × Bool) x => if sb.2 then pure sb else body sb.1 x) (init, false)).map (·.1)
+
+/-- `np.abs` of a scalar -/
+def absS [Neg α] [NatCast α] [LT α] [DecidableRel (α := α) (· < ·)] (x : α) : α := if x < ((0 : Nat) : α) then -x else x
+
 end Np
